@@ -256,8 +256,11 @@ pub enum Op {
     Push,
     Pop,
     /// extend with `n` fresh items; `panic_at = Some(k)`: the source panics on its (k mod (n+1))-th `next`
-    Extend { n: u8, panic_at: Option<u8> },
-    Collect { n: u8, panic_at: Option<u8> },
+    /// `hint`: what the caller-supplied source reports as `size_hint` (always a *correct* bound):
+    /// 0 exact, 1 `(0, None)`, 2 `(0, Some(n))` (like `filter`), 3 `(n/2, Some(n + 3))` (like a chain
+    /// of an exact and a filtered part), 4 `(n, None)`
+    Extend { n: u8, panic_at: Option<u8>, #[serde(default)] hint: u8 },
+    Collect { n: u8, panic_at: Option<u8>, #[serde(default)] hint: u8 },
     Clear,
     Len,
     Get { i: u16, past: u8 },
@@ -407,6 +410,16 @@ fn gen_range(rng: &mut Rng) -> RangeGen {
     }
 }
 
+fn gen_hint(rng: &mut Rng) -> u8 {
+    match rng.below(10) {
+        0..=4 => 0,
+        5 => 1,
+        6 | 7 => 2,
+        8 => 3,
+        _ => 4,
+    }
+}
+
 fn gen_end(rng: &mut Rng, leak_ok: bool) -> End {
     match rng.below(10) {
         0..=3 => End::Drop,
@@ -476,7 +489,7 @@ impl World for C18 {
         let mut ops = Vec::with_capacity(n_ops);
         // most plans start from a non-empty container
         if rng.chance(3, 4) {
-            ops.push(Op::Collect { n: rng.below(25) as u8, panic_at: None });
+            ops.push(Op::Collect { n: rng.below(25) as u8, panic_at: None, hint: gen_hint(rng) });
         }
         for _ in 0..n_ops {
             let k = rng.weighted(&weights);
@@ -487,10 +500,12 @@ impl World for C18 {
                 3 => Op::Extend {
                     n: rng.below(9) as u8,
                     panic_at: if unwind_ok && rng.chance(1, 3) { Some(rng.below(9) as u8) } else { None },
+                    hint: gen_hint(rng),
                 },
                 4 => Op::Collect {
                     n: rng.below(25) as u8,
                     panic_at: if unwind_ok && rng.chance(1, 4) { Some(rng.below(25) as u8) } else { None },
+                    hint: gen_hint(rng),
                 },
                 5 => Op::Clear,
                 6 => Op::Len,
@@ -577,22 +592,28 @@ impl World for C18 {
             let mut simpler: Vec<Op> = Vec::new();
             let shrink_sched = |s: &Vec<Step>| -> Vec<Vec<Step>> { shrink_list(s).into_iter().take(12).collect() };
             match op {
-                Op::Extend { n, panic_at } => {
+                Op::Extend { n, panic_at, hint } => {
                     if *n > 0 {
-                        simpler.push(Op::Extend { n: n / 2, panic_at: *panic_at });
-                        simpler.push(Op::Extend { n: n - 1, panic_at: *panic_at });
+                        simpler.push(Op::Extend { n: n / 2, panic_at: *panic_at, hint: *hint });
+                        simpler.push(Op::Extend { n: n - 1, panic_at: *panic_at, hint: *hint });
                     }
                     if panic_at.is_some() {
-                        simpler.push(Op::Extend { n: *n, panic_at: None });
+                        simpler.push(Op::Extend { n: *n, panic_at: None, hint: *hint });
+                    }
+                    if *hint != 0 {
+                        simpler.push(Op::Extend { n: *n, panic_at: *panic_at, hint: 0 });
                     }
                 }
-                Op::Collect { n, panic_at } => {
+                Op::Collect { n, panic_at, hint } => {
                     if *n > 0 {
-                        simpler.push(Op::Collect { n: n / 2, panic_at: *panic_at });
-                        simpler.push(Op::Collect { n: n - 1, panic_at: *panic_at });
+                        simpler.push(Op::Collect { n: n / 2, panic_at: *panic_at, hint: *hint });
+                        simpler.push(Op::Collect { n: n - 1, panic_at: *panic_at, hint: *hint });
                     }
                     if panic_at.is_some() {
-                        simpler.push(Op::Collect { n: *n, panic_at: None });
+                        simpler.push(Op::Collect { n: *n, panic_at: None, hint: *hint });
+                    }
+                    if *hint != 0 {
+                        simpler.push(Op::Collect { n: *n, panic_at: *panic_at, hint: 0 });
                     }
                 }
                 Op::GetRange { r, sched, end } => {
@@ -722,6 +743,7 @@ impl World for C18 {
                 "rev-then-skip-or-step_by",
                 "last-fold-rfold",
                 "snap-several-actions-on-one-form",
+                "source-with-inexact-size-hint",
             ],
             expected_faults: vec!["cancel", "leak", "unwind@source", "unwind@loop-body", "contract-panic"],
             time_note: "palette has no clock; simulated time is reported as steps_executed",
@@ -966,13 +988,16 @@ impl<'c, 'a> Exec<'c, 'a> {
                 }
                 Some(if m.is_some() { "some" } else { "none" })
             }
-            Op::Extend { n: cnt, panic_at } => {
+            Op::Extend { n: cnt, panic_at, hint } => {
+                if *hint != 0 {
+                    self.ctx.probe("source-with-inexact-size-hint");
+                }
                 let cnt = *cnt as usize;
                 let items: Vec<Item> = (0..cnt).map(|_| self.fresh()).collect();
                 let at = panic_at.map(|k| k as usize % (cnt + 1));
                 let sut = self.sut.as_mut().unwrap();
                 let r = catch(|| {
-                    let mut src = PanicSource { items: &items, pos: 0, panic_at: at };
+                    let mut src = PanicSource { items: &items, pos: 0, panic_at: at, hint: *hint };
                     sut.extend(&mut src);
                 });
                 self.ctx.changed();
@@ -1010,12 +1035,15 @@ impl<'c, 'a> Exec<'c, 'a> {
                     }
                 }
             }
-            Op::Collect { n: cnt, panic_at } => {
+            Op::Collect { n: cnt, panic_at, hint } => {
+                if *hint != 0 {
+                    self.ctx.probe("source-with-inexact-size-hint");
+                }
                 let cnt = *cnt as usize;
                 let items: Vec<Item> = (0..cnt).map(|_| self.fresh()).collect();
                 let at = panic_at.map(|k| k as usize % (cnt + 1));
                 let r = catch(|| {
-                    let mut src = PanicSource { items: &items, pos: 0, panic_at: at };
+                    let mut src = PanicSource { items: &items, pos: 0, panic_at: at, hint: *hint };
                     (d.collect)(&mut src)
                 });
                 match (r, at) {
@@ -1513,6 +1541,8 @@ struct PanicSource<'a> {
     items: &'a [Item],
     pos: usize,
     panic_at: Option<usize>,
+    /// see `Op::Extend`
+    hint: u8,
 }
 
 impl<'a> Iterator for PanicSource<'a> {
@@ -1527,7 +1557,13 @@ impl<'a> Iterator for PanicSource<'a> {
     }
     fn size_hint(&self) -> (usize, Option<usize>) {
         let n = self.items.len().saturating_sub(self.pos);
-        (n, Some(n))
+        match self.hint {
+            1 => (0, None),
+            2 => (0, Some(n)),
+            3 => (n / 2, Some(n + 3)),
+            4 => (n, None),
+            _ => (n, Some(n)),
+        }
     }
 }
 
